@@ -203,7 +203,7 @@ func strs(xs ...string) []string { return xs }
 // coreEvent: the node-level events the model predicts (callback events are C10's matter and
 // are compared solo / concurrent by the direct oracle only).
 func coreEvent(name string) bool {
-	for _, p := range []string{"cb:", "scb:", "handoff:", "interrupt:"} {
+	for _, p := range []string{"cb:", "scb:", "handoff:", "interrupt:", "ctx:"} {
 		if strings.HasPrefix(name, p) {
 			return false
 		}
